@@ -6,6 +6,7 @@ import (
 	_ "verifharness/props/c02"
 	_ "verifharness/props/c03"
 	_ "verifharness/props/c04"
+	_ "verifharness/props/c05"
 	_ "verifharness/props/c06"
 	_ "verifharness/props/c07"
 	_ "verifharness/props/c08"
